@@ -5,9 +5,13 @@ package main
 
 import (
 	"fmt"
+	"go/ast"
+	"go/parser"
+	"go/token"
 	"os"
 	"path/filepath"
 	"regexp"
+	"strconv"
 	"strings"
 )
 
@@ -246,6 +250,56 @@ func writeTemplateFacts(repo, outPath string) {
 	}
 	fmt.Fprintf(&b, "/-- the package-level variables of cmd/protoc-gen-fastmarshal (non-test files) that some function body writes to:\n    assignment to the variable or to an element / field of it, increment or decrement, delete or clear, its address taken, a\n    receiver-modifying method (Store, Lock, Do, …) called on it -/\ndef generatorGlobalsWritten : List String := %s\n\n", leanStrList(globals))
 	fmt.Printf("fact F19 plug-in package-level variables written by functions %v\n", globals)
+	// the generator's options: every `<flag set>.<Kind>Var(&target, "<name>", …)` / `<flag set>.Var(&target, "<name>", …)`
+	// call in the non-test Go files of the plug-in, in source order (files in name order)
+	genDir := filepath.Join(repo, "cmd", "protoc-gen-fastmarshal")
+	var opts []string
+	reserved := 0
+	if ents, err := os.ReadDir(genDir); err == nil {
+		fset := token.NewFileSet()
+		for _, e := range ents {
+			if e.IsDir() || !strings.HasSuffix(e.Name(), ".go") || strings.HasSuffix(e.Name(), "_test.go") {
+				continue
+			}
+			src, _ := os.ReadFile(filepath.Join(genDir, e.Name()))
+			reserved += strings.Count(string(src), "Reserved")
+			f, err := parser.ParseFile(fset, e.Name(), src, 0)
+			if err != nil {
+				fmt.Println("cannot parse", e.Name(), err)
+				os.Exit(1)
+			}
+			ast.Inspect(f, func(n ast.Node) bool {
+				ce, ok := n.(*ast.CallExpr)
+				if !ok {
+					return true
+				}
+				sel, ok := ce.Fun.(*ast.SelectorExpr)
+				if !ok || !strings.HasSuffix(sel.Sel.Name, "Var") || len(ce.Args) < 3 {
+					return true
+				}
+				if _, ok := ce.Args[0].(*ast.UnaryExpr); !ok {
+					return true
+				}
+				lit, ok := ce.Args[1].(*ast.BasicLit)
+				if !ok || lit.Kind != token.STRING {
+					return true
+				}
+				name, _ := strconv.Unquote(lit.Value)
+				kind := strings.ToLower(strings.TrimSuffix(sel.Sel.Name, "Var"))
+				if kind == "" {
+					kind = "value" // flag.Value implementation
+				}
+				opts = append(opts, fmt.Sprintf("(%q, %q)", name, kind))
+				return true
+			})
+		}
+	}
+	for _, n := range []string{"singlefile.go.tmpl", "permessage.go.tmpl", "fieldsnippets.tmpl"} {
+		reserved += strings.Count(read(n), "Reserved") + strings.Count(read(n), "reserved")
+	}
+	fmt.Fprintf(&b, "/-- the options of the generator: (name, kind) of every `flags.<Kind>Var(&target, \"name\", …)` call in the non-test Go files of cmd/protoc-gen-fastmarshal (kind `value`: a flag.Value implementation) -/\ndef generatorOptions : List (String × String) := [%s]\n\n", strings.Join(opts, ", "))
+	fmt.Fprintf(&b, "/-- mentions of `Reserved` (descriptor accessors ReservedRanges / ReservedNames) in the non-test Go files of the generator and of `reserved` in its three templates -/\ndef reservedMentions : Nat := %d\n\n", reserved)
+	fmt.Printf("fact F21 generator options %v\nfact F22 mentions of reserved declarations in the generator = %d\n", opts, reserved)
 	b.WriteString("end Csproto.Generated\n")
 	writeIfChanged(outPath, []byte(b.String()))
 }
